@@ -1,14 +1,15 @@
 """C16 — the in-memory and the SQLite backends are observationally equivalent, and both agree with a reference model.
 
 proof: Props/C16.v — two executable Gallina models of orchestrator + wait graph + broker + state backend:
-       Model/BackendIndex.v (record dict + incrementally maintained indexes, transcribed from the Mem* classes) and
+       Model/BackendIndex.v (record dict + incrementally maintained indexes, transcribed from the CURRENT Mem* classes) and
        Model/BackendRel.v (rows + the SQL queries' filters, transcribed from the SQLite* classes = the reference model of the
        documented contract).  For ALL operation sequences inside the domain of Model/BackendGuard.v every answer of the two
-       models coincides (simulation relation, induction over the op list) and the index invariant holds; each class outside
-       the domain is refuted by a witness.
+       models coincides (simulation relation, induction over the op list) and the index invariant holds; the one defect left
+       in the in-memory backend (release_waiters forgets the released invocation's own waits) is refuted by two witnesses.
 tie:   the SAME op sequences (exhaustive short ones + seeded random ones, virtual clock) run on the real Mem* objects, the real
-       SQLite* objects and both models (vm_compute), with a full read-out (about 110 queries) after EVERY operation:
-       SQLite == relational model always; Mem == index model always; Mem == SQLite == reference inside the domain.
+       SQLite* objects and both models (vm_compute), with a full read-out (77 queries) after EVERY operation, STRICTLY:
+       SQLite == relational model and Mem == relational model on every answer; only after a sequence met the remaining
+       finding's guard class may Mem differ, and then exactly as the index model predicts (KNOWN-FINDING).
 """
 from __future__ import annotations
 
@@ -29,33 +30,35 @@ MANIFEST = {
             "status/task/call/argument indexes, retry dict, purge deque, waiting_for/waited_by/_ready) and the relational model "
             "(SQLite* classes: rows + query filters; the reference model of the documented contract) give the same answer to every "
             "operation, unordered answers compared as sorted sets (index_refines_relational), and the indexes are the images of the "
-            "record table (index_invariant); the unrestricted statement is refuted by one witness per excluded class. Tie: the same "
-            "sequences (exhaustive to a small length over a reduced alphabet + seeded random up to a few hundred operations, "
+            "record table (index_invariant); the unrestricted statement is refuted by the two faces of the one remaining defect. "
+            "Tie: the same sequences (exhaustive to a small length over a reduced alphabet + seeded random up to 300 operations, "
             "VirtualClock on a 1/64 s grid with steps on the purge / pending / heartbeat cut-offs) are executed on the real "
             "MemOrchestrator+MemBroker+MemStateBackend, the real SQLite counterparts and both models with a full read-out after "
-            "every operation.",
+            "every operation; both implementations must equal the reference model on every answer.",
     "note": "COVERED BY THEOREM + CORRESPONDENCE (index model vs relational model, different definitions, simulation proof): "
-            "register_new_invocations, set_invocation_status (KeyError / transition / ownership errors; release + auto-purge set-up on "
-            "a final status; InvocationNotFound from the trigger report when the state backend lost the invocation), "
-            "index_arguments_for_concurrency_control, get_existing_invocations (task x key arguments x statuses), "
-            "get_task_invocation_ids, get_call_invocation_ids, get_invocation_ids_paginated, count_invocations, filter_by_status, "
-            "get_invocation_status_record, increment/get_invocation_retries, waiting_for_results / release_waiters / "
-            "get_blocking_invocations (C09's wait-graph invariant reused), get_pending_invocations_for_recovery, "
-            "get_running_invocations_for_recovery (C04's scan equivalence reused), orchestrator purge, auto_purge when nothing is due. "
-            "THEOREM DOMAIN (Model/BackendGuard.v): fresh registrations only; retries / filter_by_status / awaited ids only for "
-            "registered invocations; direct release_waiters only for final invocations; no state-backend purge (each excluded class "
-            "is a place where the in-memory backend leaves the contract: refuted by a witness in Props/C16.v, reproduced on the real "
-            "code, listed in known_findings.txt with a proposed fix); class 7 = auto_purge with due invocations: the purge LOOP is "
-            "modelled on both sides and covered by the correspondence (both models agree with both implementations) but not by the "
-            "simulation proof. SHARED-SHAPE PART (one definition used by both models, theorem trivial there, correspondence runs both "
-            "implementations against it): register_runner_heartbeats / get_active_runners, broker route / retrieve / peek / count / "
-            "purge (FIFO refinement is C08's theorem), state backend set/get result, exception, workflow data, history, stored "
-            "invocations, runner contexts, purge. IMPLEMENTATION-VS-IMPLEMENTATION ONLY (no model): "
-            "record_atomic_service_execution. NOT COVERED: trigger store, client data store, app-info registry, workflow-run "
-            "registry, time-range iterators, negative limits / offsets. No translator: the tie is the differential correspondence "
-            "(every run executes the current source of both backends against both models). Trusted: SQLite engine; harness connection "
-            "cache (one sqlite3 connection per thread and file instead of one per call; SQL text unchanged); VirtualClock; "
-            "status_record_transition = doc_transition (C01's theorem).",
+            "register_new_invocations (incl. re-registration of known invocations), set_invocation_status (KeyError / transition / "
+            "ownership errors; release + auto-purge set-up on a final status; InvocationNotFound from the trigger report when the "
+            "state backend lost the invocation), index_arguments_for_concurrency_control, get_existing_invocations (task x key "
+            "arguments x statuses), get_task_invocation_ids, get_call_invocation_ids, get_invocation_ids_paginated, "
+            "count_invocations, filter_by_status, get_invocation_status_record, increment/get_invocation_retries (known and unknown "
+            "ids), waiting_for_results / release_waiters / get_blocking_invocations (C09's wait-graph invariant reused; awaited ids "
+            "need not be registered), get_pending_invocations_for_recovery, get_running_invocations_for_recovery (C04's scan "
+            "equivalence reused), orchestrator purge, state-backend purge, auto_purge when nothing is due. "
+            "THEOREM DOMAIN (Model/BackendGuard.v), everything except: class 4 = direct release_waiters on an invocation that is not "
+            "final and class 1 = registering again an invocation that was auto-purged (the two faces of the remaining known finding "
+            "mem-release-of-live-invocation-forgets-its-own-waits, each refuted by a witness in Props/C16.v and reproduced on the real "
+            "code); class 3 = an invocation waiting for itself (outside C09's invariant proof; no divergence known; correspondence "
+            "covers it strictly); class 7 = auto_purge with due invocations: the purge LOOP (both of its paths) is modelled on both "
+            "sides and covered strictly by the correspondence but not by the simulation proof. SHARED-SHAPE PART (one definition "
+            "used by both models, theorem trivial there, correspondence runs both implementations against it): "
+            "register_runner_heartbeats / get_active_runners, broker route / retrieve / peek / count / purge (FIFO refinement is C08's "
+            "theorem), state backend set/get result, exception, workflow data, history, stored invocations, runner contexts, purge. "
+            "IMPLEMENTATION-VS-IMPLEMENTATION ONLY (no model, strict): record_atomic_service_execution. NOT COVERED: trigger store, "
+            "client data store, app-info registry, workflow-run registry, time-range iterators, negative limits / offsets. "
+            "No translator: the tie is the differential correspondence (every run executes the current source of both backends "
+            "against both models; the witnesses of the seven repaired divergences run as regression cases). Trusted: SQLite engine; "
+            "harness connection cache (one sqlite3 connection per thread and file instead of one per call; SQL text unchanged); "
+            "VirtualClock; status_record_transition = doc_transition (C01's theorem).",
     "design_ref": "DESIGN.md §6 C16",
 }
 
